@@ -52,10 +52,43 @@ func newLits() *mstore.Literals {
 	// literals nclasses*nvariants+nunhashable ..: one multipart message and variants that differ in exactly one hashed
 	// item (own class each) or only in Date / Message-Id / X- header (class of the base message)
 	family, _ = l.AddHashFamily(20)
+	// one single-part text message under every Content-Transfer-Encoding with two different (decoded) bodies, and the
+	// same message with its six Content-Type parameters in other orders
+	encPairs, reordered = l.AddEncodingFamily(40, 41)
 	return l
 }
 
 var family []int
+var encPairs [][2]int
+var reordered []int
+
+// litLegend says what the literals of the transfer-encoding family are that occur in ops.
+func litLegend(ops []mstore.Op) string {
+	var out []string
+	done := map[int]bool{}
+	for _, o := range ops {
+		if o.Kind != "append" || done[o.Lit] {
+			continue
+		}
+		done[o.Lit] = true
+		for e, p := range encPairs {
+			for k, l := range p {
+				if l == o.Lit {
+					out = append(out, fmt.Sprintf("L%d = text/plain with six Content-Type parameters, Content-Transfer-Encoding %s, body %s", l, mstore.EncodingNames[e], []string{"A", "B"}[k]))
+				}
+			}
+		}
+		for _, l := range reordered {
+			if l == o.Lit {
+				out = append(out, fmt.Sprintf("L%d = text/plain with six Content-Type parameters (not in alphabetical order), 7bit, body A", l))
+			}
+		}
+	}
+	if len(out) == 0 {
+		return ""
+	}
+	return " | " + strings.Join(out, "; ")
+}
 
 func isRecov(n string) bool { return strings.EqualFold(n, mstore.RecoveryName) }
 
@@ -260,6 +293,15 @@ func genOp(rng *common.Rng, d mstore.Dump, nlits int) mstore.Op {
 		if rng.Chance(0.12) {
 			l = family[rng.Pick(len(family))] // differs from its siblings in exactly one item
 		}
+		if rng.Chance(0.12) {
+			// the same message under another transfer encoding / with another body; identity encodings other than 7bit/8bit
+			// most of the time
+			e := rng.Pick(len(encPairs))
+			if rng.Chance(0.5) {
+				e = rng.Pick(2)
+			}
+			l = encPairs[e][rng.Pick(2)]
+		}
 		return l
 	}
 	allUIDs := func(m *mstore.MboxDump) []int {
@@ -410,6 +452,13 @@ func runC20(ctx *common.Ctx) error {
 	if tableErr != nil {
 		res.Notes = append(res.Notes, "literal table vs rfc822.GetMessageHash: "+tableErr.Error())
 	}
+	res.Evaluations += len(newLits().Bytes) * mstore.HashCalls
+	res.Count("scenario:hash-of-the-same-bytes-repeated")
+	if uh, ok := tableErr.(*mstore.UnstableHash); ok {
+		// not a function of the bytes: a retry of a rejected APPEND cannot be recognised (the histories below show it too)
+		res.Fail(fmt.Sprintf("content-hash-differs-between-calls [rfc822.GetMessageHash called %d times on the bytes of one message]", mstore.HashCalls),
+			tableErr.Error()+": "+strings.SplitN(string(newLits().Bytes[uh.Lit]), "\r\n\r\n", 2)[0], &c20Case{ID: 0, Ops: []mstore.Op{{Kind: "append", Name: "INBOX", Lit: uh.Lit, Remote: "fail"}}})
+	}
 	var lines []string
 	id := 0
 	ncases := ctx.Budget(40, 500)
@@ -430,7 +479,7 @@ func runC20(ctx *common.Ctx) error {
 		if cs.Dedup {
 			pre = "de-duplicating remote: "
 		}
-		res.Fail(v.Kind+" ["+pre+mstore.OpsString(ops)+"]", v.Detail, cs)
+		res.Fail(v.Kind+" ["+pre+mstore.OpsString(ops)+"]", v.Detail+litLegend(ops), cs)
 	}
 	runCase := func(cs *c20Case, next func(d mstore.Dump, i int) *mstore.Op) error {
 		lits := newLits()
@@ -572,6 +621,32 @@ func runC20(ctx *common.Ctx) error {
 		if err := fixed(ops); err != nil {
 			return err
 		}
+	}
+	// per transfer encoding: two messages that differ only in the (encoded) body, each rejected three times, a restart in
+	// between: both must be kept, each once (the body reaches the hash under every encoding; the hash of the same bytes is
+	// the same on every call - the Content-Type of these messages has six parameters)
+	for e := range encPairs {
+		a, b := encPairs[e][0], encPairs[e][1]
+		rej := func(l int) mstore.Op { return mstore.Op{Kind: "append", Name: "INBOX", Lit: l, Remote: "fail"} }
+		if err := fixed([]mstore.Op{rej(a), rej(b), rej(a), rej(b), {Kind: "restart"}, rej(b), rej(a),
+			{Kind: "move", Name: mstore.RecoveryName, UIDs: []int{1, 2}, Name2: "INBOX", CreateOK: true, LabelOK: true}, rej(a), rej(a)}); err != nil {
+			return err
+		}
+		res.Count("scenario:transfer-encoding:" + mstore.EncodingNames[e])
+	}
+	// the same rejected bytes handed in again and again (also after a restart): kept once
+	{
+		var ops []mstore.Op
+		for i := 0; i < 12; i++ {
+			ops = append(ops, mstore.Op{Kind: "append", Name: "INBOX", Lit: reordered[0], Remote: "fail"})
+			if i == 7 {
+				ops = append(ops, mstore.Op{Kind: "restart"})
+			}
+		}
+		if err := fixed(ops); err != nil {
+			return err
+		}
+		res.Count("scenario:retries-of-one-literal")
 	}
 	// one recovered message loses its cache file, restart: the hash map is rebuilt from the readable ones, so a repeated
 	// rejected APPEND of an INTACT recovered message is still recognised (oracle only: the damaged message cannot be fetched)
